@@ -90,12 +90,25 @@ pub fn jsonish(max: usize) -> impl Strategy<Value = String> {
   vec(any::<u16>(), 0..=max).prop_map(|v| v.into_iter().map(|i| JSONISH[crate::engine::pick(i, JSONISH.len())] as char).collect())
 }
 
-pub fn unicode(max: usize) -> impl Strategy<Value = String> {
-  vec(any::<char>(), 0..=max).prop_map(|v| v.into_iter().collect())
+fn mixed_char() -> impl Strategy<Value = char> {
+  prop_oneof![
+    4 => any::<char>(),
+    3 => (0x20u32..0x7f).prop_map(|c| char::from_u32(c).unwrap()),
+    1 => (0u32..0x20).prop_map(|c| char::from_u32(c).unwrap()),
+    1 => (0x7fu32..0x100).prop_map(|c| char::from_u32(c).unwrap()),
+    1 => any::<u16>().prop_map(|i| ['\\', '"', '.', '=', '\u{7ff}', '\u{800}', '\u{d7ff}', '\u{e000}', '\u{fffd}', '\u{ffff}', '\u{10000}', '\u{10ffff}', '\u{2028}', '\u{feff}', '\u{301}', '\0'][crate::engine::pick(i, 16)]),
+  ]
 }
 
-const SPECIALS: [&str; 18] =
-  ["", ".", "..", "\0", "a.b", "=", "==", "é", "😀", " ", "\u{feff}", "v4.local.", "AAAA", "null", "{}", "\"", "\u{0}\u{0}", "\u{10ffff}"];
+pub fn unicode(max: usize) -> impl Strategy<Value = String> {
+  vec(mixed_char(), 0..=max).prop_map(|v| v.into_iter().collect())
+}
+
+const SPECIALS: [&str; 40] = [
+  "", ".", "..", "\0", "a.b", "=", "==", "é", "😀", " ", "\u{feff}", "v4.local.", "AAAA", "null", "{}", "\"", "\u{0}\u{0}", "\u{10ffff}",
+  "\\", "\u{2028}", "\u{d7ff}", "\u{e000}", "\u{ffff}", "\u{fffd}", "%00", "\r\n", "\t", "a\u{301}", "\u{200b}", "\u{202e}abc", "true", "0", "-0", "1e400", "[]",
+  "{\"a\":1}", "\u{7f}", "\u{80}", "\u{7ff}\u{800}", "\u{1}\u{1f}",
+];
 
 pub fn special() -> impl Strategy<Value = String> {
   any::<u16>().prop_map(|i| SPECIALS[crate::engine::pick(i, SPECIALS.len())].to_string())
@@ -146,6 +159,14 @@ pub fn bytes32() -> BoxedStrategy<Vec<u8>> {
     8 => vec(any::<u8>(), 32),
     1 => Just(vec![0u8; 32]),
     1 => Just(vec![0xffu8; 32]),
+    // one position forced to a boundary value, the rest random
+    2 => (vec(any::<u8>(), 32), 0usize..32, prop_oneof![Just(0u8), Just(0xffu8), Just(0x80u8), Just(0x7fu8)]).prop_map(|(mut v, i, b)| {
+      v[i] = b;
+      v
+    }),
+    1 => Just(b"wubbalubbadubdubwubbalubbadubdub".to_vec()),
+    1 => Just((0u8..32).collect::<Vec<u8>>()),
+    1 => Just(vec![0x80u8; 32]),
   ]
   .boxed()
 }
